@@ -1314,7 +1314,13 @@ mod state {
                     let x = gen_value(r);
                     match r.below(7) {
                         0 => Op::Get(name, *fam, u),
-                        1 => Op::Set(name, *fam, u, x),
+                        1 => {
+                            if r.chance(1, 8) {
+                                // a non-finite write, then a finite one so that later judgements start from a finite slot
+                                ops.push(Op::Set(name.clone(), *fam, u, *r.pick(&[f64::INFINITY, f64::NEG_INFINITY, f64::NAN])));
+                            }
+                            Op::Set(name, *fam, u, x)
+                        }
                         2 => Op::Add(name, *fam, u, if r.chance(1, 4) { 0.0 } else { x }),
                         3 => Op::Rt(name, *fam, u, x),
                         4 => Op::AddN(name, *fam, u, if r.chance(1, 4) { 0.0 } else { x }, *r.pick(&[2usize, 10, 50, 200, 500])),
@@ -1324,7 +1330,7 @@ mod state {
                 }
                 (Some(Feat::Custom(_, _, fm)), false) => match (fm, r.chance(1, 2)) {
                     (Fmt::F(_), true) => Op::GetF(name),
-                    (Fmt::F(_), false) => Op::SetF(name, gen_value(r)),
+                    (Fmt::F(_), false) => Op::SetF(name, if r.chance(1, 6) { *r.pick(&[f64::INFINITY, f64::NEG_INFINITY, f64::NAN]) } else { gen_value(r) }),
                     (Fmt::I(_), true) => Op::GetI(name),
                     (Fmt::I(_), false) => Op::SetI(name, gen_int(r, true)),
                     (Fmt::U(_), true) => Op::GetU(name),
@@ -1732,6 +1738,35 @@ mod state {
         }
     }
 
+    /// writes of +inf, -inf and NaN through set_* / add_* / set_custom_f64: a write is a write (each is followed by a
+    /// finite write, so that the next judgement starts from a finite slot)
+    fn boundary5(st: &mut Stream) {
+        let case = |cfg: Vec<(String, Feat)>, tm: Vec<(String, Feat)>, am: Vec<(String, Feat)>, user: User| Case { cfg, tm, am, user, ops: vec![] };
+        for rot in 0..3usize {
+            let mut c = case(
+                vec![(s("odo"), d(rot, 12.5))],
+                vec![(s("distance"), d((rot + 1) % 5, 12.5)), (s("time"), t(rot, 12.5)), (s("energy_liquid"), e(rot, 12.5)), (s("soc"), cu("soc", "percent", Fmt::F(12.5)))],
+                vec![],
+                User::None,
+            );
+            for (name, fam) in [("distance", 0usize), ("time", 1), ("energy_liquid", 2), ("odo", 0)] {
+                for (k, x) in [f64::INFINITY, f64::NEG_INFINITY, f64::NAN].iter().enumerate() {
+                    let u = (rot + k) % fam_units(fam);
+                    c.ops.push(Op::Set(s(name), fam, u, *x));
+                    c.ops.push(Op::Set(s(name), fam, u, 12.5));
+                    c.ops.push(Op::Add(s(name), fam, u, *x));
+                    c.ops.push(Op::Set(s(name), fam, u, 2.0 + k as f64));
+                }
+            }
+            for x in [f64::INFINITY, f64::NEG_INFINITY, f64::NAN] {
+                c.ops.push(Op::SetF(s("soc"), x));
+                c.ops.push(Op::GetF(s("soc")));
+                c.ops.push(Op::SetF(s("soc"), 12.5));
+            }
+            add_case(st, c, "non_finite_writes");
+        }
+    }
+
     /// a follow-up query on the same application: the same names with other definitions, or something else entirely
     fn follow_up(r: &mut Rng, first: &Case) -> Case {
         let mut c = first.clone();
@@ -1867,6 +1902,7 @@ mod state {
         boundary2(&mut st);
         boundary3(&mut st);
         boundary4(&mut st);
+        boundary5(&mut st);
         let mut rng = Rng::new(a.seed ^ 0x5717_A7E5);
         while st.next_id() < a.n {
             let mut r = rng.fork();
